@@ -29,10 +29,11 @@ def q(xs):
     return "{%s}" % ",".join('"%s"' % x for x in xs)
 
 
-def mc_cfg(themes, extra, less, textlen, export, otd, omit, parser_defects, fix=True):
+def mc_cfg(themes, extra, less, textlen, export, otd, omit, parser_defects, fix=True, deep=(), deeper=()):
     inv = "INVARIANT ThmConforming\n" + ("INVARIANT ThmFixpoint\n" if fix else "") + "INVARIANT ThmOmit\nINVARIANT ThmExport\n"
     return ("INIT Init\nNEXT Next\nCHECK_DEADLOCK FALSE\n" + inv +
-            "CONSTANT Themes = %s\nCONSTANT Extra = %d\nCONSTANT Less = %d\nCONSTANT TextLen = %d\nCONSTANT Export = %s\n"
+            "CONSTANT Themes = %s\nCONSTANT Extra = %d\nCONSTANT Less = %d\nCONSTANT Deep = " + q(deep) + "\nCONSTANT Deeper = " + q(deeper) +
+            "\nCONSTANT TextLen = %d\nCONSTANT Export = %s\n"
             "CONSTANT OtDefects = %s\nCONSTANT CheckOmit = %s\nCONSTANT KnownDefects = %s\n"
             % (q(themes), extra, less, textlen, "TRUE" if export else "FALSE", q(otd), "TRUE" if omit else "FALSE", q(parser_defects)))
 
@@ -342,13 +343,18 @@ def run(ctx):
     listed = [k for k in OT_KEYS + SER_KEYS if k in ctx.open_keys]
     qk = ctx.quick
     workers = 8
-    extra, less, textlen = (0, 1, 2) if qk else (0, 0, 3)
+    extra, less, textlen = (0, 1, 2) if qk else (0, 1, 3)
+    deep = [] if qk else ["blocks", "table", "select", "head", "doc", "lists", "ruby"]
+    deeper = [] if qk else ["lists", "ruby"]
     per_tree = 1 if qk else 2
-    frac = 0.35 if qk else 0.5
+    frac = 0.35 if qk else 0.3
     cap_full = 40 if qk else 300
     full_mod = 3000 if qk else 3000
     _G.update(full=rt.full_product(), pairwise=rt.pairwise(random.Random(ctx.seed)), listed=set(listed), workers=workers)
-    ctx.constants = {"themes": THEMES, "bound": "Bound(theme) + %d - %d added nodes" % (extra, less), "TextLen": textlen,
+    base = {"blocks": 4, "lists": 4, "phrasing": 4, "sections": 4, "forms": 4, "table": 4, "select": 4, "ruby": 4, "foreign": 4, "head": 4, "doc": 6}
+    bounds = {t: base[t] + extra - less + (t in deep) + (t in deeper) for t in base}
+    bounds.update(text="1 text node of <= %d atoms x 8 contexts" % textlen, attrs="1 element from ~280 attribute-list candidates")
+    ctx.constants = {"themes": THEMES, "bound (added nodes per theme)": bounds, "TextLen": textlen,
                      "KnownDefects(parser, code-faithful)": parser_defects, "OtDefects(intended)": [],
                      "option factors": {k: v for k, v in rt.FACTORS}, "pairwise rows": len(_G["pairwise"]), "full product rows": len(_G["full"]),
                      "TLC-judged outputs per generated tree": per_tree, "TLC-judged fraction of generated trees": frac,
@@ -367,7 +373,7 @@ def run(ctx):
                        "the class of conforming documents is the subset described in ContentModel.tla (no C0/C1 controls, NUL, CR, "
                        "surrogates, noncharacters; title not required)"]
     # ---- 1. model level: the generator emits conforming fixpoints; intended optional-tag omission is invisible ----
-    r = ctx.tlc("MC_RoundTrip", mc_cfg(THEMES, extra, less, textlen, True, [], True, parser_defects), "mc", workers=workers,
+    r = ctx.tlc("MC_RoundTrip", mc_cfg(THEMES, extra, less, textlen, True, [], True, parser_defects, deep=deep, deeper=deeper), "mc", workers=workers,
                 keep_records=False, heap="12g")
     if r.violated:
         ctx.violation("theorem %s fails on the round-trip specification" % r.violated, {"tlc": r.stdout_path})
@@ -380,6 +386,11 @@ def run(ctx):
                      workers=4, expect_ok=False)
         wit[d] = (r2.violated == "ThmOmit")
     ctx.notes["finding_witness_at_model_level"] = wit
+    if not qk:
+        # informational: the same theorems with the INTENDED parser (no tree-construction deviations), quick-size bounds
+        r3 = ctx.tlc("MC_RoundTrip", mc_cfg(THEMES, 0, 1, 2, False, [], True, []), "mc-intended-parser", workers=workers, expect_ok=False,
+                     keep_records=False, heap="12g")
+        ctx.notes["theorems_with_intended_parser"] = r3.violated or r3.error or "hold"
     # ---- 2. spec -> code: replay every exported tree ----
     judge = Judge(ctx, parser_defects, per_tree, frac, cap_full)
     shown = 0
